@@ -253,9 +253,9 @@ Proof.
   cbn [flat_of] in HF. destruct c; try discriminate. destruct withs; [|discriminate]. destruct fu; [discriminate|].
   destruct al; [discriminate|].
   unfold str_query. cbn [top_cls]. rewrite rquery_QSel. unfold sel_text.
-  pose proof (name_joins_length (base_tables from) joins (src_names from (fst (name_from sub_count 0 from)) ++ map fst (@nil (string * query))) (snd (name_from sub_count 0 from))) as HL.
+  pose proof (name_joins_length (base_tables from) joins (src_names from (fst (name_from sub_count 0 from))) (snd (name_from sub_count 0 from))) as HL.
   destruct (name_from sub_count 0 from) as [fnames n1]. cbn [fst snd] in HL.
-  destruct (name_joins (base_tables from) (src_names from fnames ++ map fst (@nil (string * query))) n1 joins) as [jnames n2]. cbn [fst] in HL.
+  destruct (name_joins (base_tables from) (src_names from fnames) n1 joins) as [jnames n2]. cbn [fst] in HL.
   cbv zeta in HF |- *.
   set (srcs := (src_refs from fnames ++ src_refs (map (fun j => snd (fst j)) joins) jnames)%list) in *.
   set (w := wns_of from joins srcs wh) in *.
